@@ -42,8 +42,31 @@ pub fn set_link_handler(f: Option<LinkFn>) {
     *LINK.write().unwrap() = f;
 }
 
+thread_local! {
+    static NO_YIELD: std::cell::Cell<u32> = std::cell::Cell::new(0);
+}
+
+/// While the returned guard lives the calling thread passes its yield points without parking: for
+/// sections that hold a lock other tasks take WITHOUT a yield point (a task parked in there
+/// would make them block for real)
+pub struct NoYield;
+
+pub fn no_yield_section() -> NoYield {
+    NO_YIELD.with(|c| c.set(c.get() + 1));
+    NoYield
+}
+
+impl Drop for NoYield {
+    fn drop(&mut self) {
+        NO_YIELD.with(|c| c.set(c.get().saturating_sub(1)));
+    }
+}
+
 #[inline]
 pub fn yield_point(site: &'static str) {
+    if NO_YIELD.with(|c| c.get()) > 0 {
+        return;
+    }
     let f = { *YIELD.read().unwrap() };
     if let Some(f) = f {
         f(site)
